@@ -151,6 +151,12 @@ class _StatePointDict(JSONAttrDict):
             # file move failed due to the job not being initialized so the file
             # doesn't exist, which is OK.
             if error.errno != errno.ENOENT:
+                # Nothing was moved, or the rollback put the file back: the
+                # rejected change must not stay in memory either.
+                data = self._load_from_resource()
+                if data is not None:
+                    with self._suspend_sync:
+                        self._update(data, _validate=False)
                 raise
 
         # Update each job instance.
